@@ -36,6 +36,12 @@ CHECKS = {
             'calc_kM compared with the kinetic-energy Hessian; the coupling sign is decided by a package-only metamorphic '
             'relation; the kernel defect R1 is matched by a signature predicate and everything else stays armed',
             'trusts vlib/ref/panel.py; sign convention taken from the laminate code (mid-plane at z=+offset)', '3 C04'),
+    'C08': ('Hypothesis-generated states; differential oracle (reference fint/kT at the same Gauss points) + package-only '
+            'oracles: Richardson finite difference of fint (exact for the cubic fint), closed-path work, small-state limit',
+            'generated-input search over plate/cpanel x B-coupled laminates x flags x states up to 5h x Gauss orders x laminate '
+            'tables, and assemblies of 2..4 panels with all five connection kinds; the tangent is compared with the exact '
+            'Jacobian of the package own internal force',
+            'trusts vlib/ref/panel.py for the differential part; the Jacobian/closed-path parts use package outputs only', '3 C08'),
     'C10': ('exhaustive enumeration of the finite table domains + Hypothesis-generated sub-intervals/maps/flags; oracle: '
             'exact rational Bardell polynomials; C sources parsed and evaluated in exact rational arithmetic',
             'the C library is compiled from the current tree and every one of the 6x900 full-interval entries x 256 flag '
